@@ -26,7 +26,12 @@ ASSUMPTIONS = [
     "parameter; checked by observing every case under all of them against one model outcome",
     "dict keys / set elements stay distinct under the mapping (no uuid next to its own str() in one container); dict keys other "
     "than '__class__'; json dict keys are str (the json module's coercion of int/float/bool/None keys to text is outside the model); "
-    "no NaN inside set elements or dict keys; msgpack datetime (local-time fromtimestamp) is outside the modelled domain",
+    "no NaN inside set elements or dict keys; datetimes are naive local datetimes of the years 1902..2100 on which "
+    "datetime.fromtimestamp(d.timestamp()) == d (away from DST folds/gaps of the local zone; generated before and after the epoch, "
+    "microseconds 0 and non-0) — on that domain msgpack's float-timestamp codec is the identity; timezone-aware datetimes are refused "
+    "by msgpack and outside the model",
+    "serialisation is a pure function of the value: no state is shared between two invocations of one serializer object "
+    "(checked by a deterministic re-entrancy probe from inside a converter hook; thread interleavings are not enumerated)",
 ]
 IMPORTS = "From V Require Import Model.Values Model.Serializers Harness.Cmp Harness.H01."
 SERS = ["serpent", "marshal", "json", "msgpack"]
@@ -72,6 +77,8 @@ def build(spec):
         return decimal.Decimal(spec[1])
     if t == "date":
         return datetime.date.fromordinal(spec[1])
+    if t == "datetime":
+        return datetime.datetime(*spec[1])
     raise ValueError("bad spec %r" % (spec,))
 
 
@@ -91,6 +98,8 @@ def ext_payload(code, data, codes):
         return int(data)
     if code == codes["date"] and len(data) == struct.calcsize("l"):
         return datetime.date.fromordinal(struct.unpack("l", data)[0])
+    if code == codes["datetime"] and len(data) == 8:
+        return datetime.datetime.fromtimestamp(struct.unpack("d", data)[0])
     raise Unrep("ExtType(%d, %r)" % (code, data))
 
 
@@ -127,6 +136,9 @@ def lit(o, codes):
         return "(VDecimal %s)" % ctext(str(o))
     if t is datetime.date:
         return "(VDate %s %s)" % (cZ(o.toordinal()), ctext(o.isoformat()))
+    if t is datetime.datetime and o.tzinfo is None:
+        key = (o.toordinal() * 86400 + o.hour * 3600 + o.minute * 60 + o.second) * 1000000 + o.microsecond
+        return "(VDateTime %s %s)" % (cZ(key), ctext(o.isoformat()))
     if t.__name__ == "ExtType" and hasattr(o, "code") and hasattr(o, "data"):
         return "(VExt %s %s)" % (cN(o.code), lit(ext_payload(o.code, o.data, codes), codes))
     raise Unrep("%s object" % t.__name__)
@@ -215,7 +227,7 @@ def expected(s, v, top=True):
         if s == "marshal":
             raise Refuse("decimal")
         return str(v)
-    if t is datetime.date:
+    if t is datetime.date or (t is datetime.datetime and v.tzinfo is None):
         if s == "marshal":
             raise Refuse("date")
         return v if s == "msgpack" else v.isoformat()
@@ -315,7 +327,7 @@ def g_text(rng):
 def g_atom(rng, core_only=False, hashable_only=False):
     kinds = ["none", "bool", "int", "int", "float", "float", "str", "str"]
     if not core_only:
-        kinds += ["bytes", "complex", "uuid", "decimal", "date"]
+        kinds += ["bytes", "complex", "uuid", "decimal", "date", "datetime"]
     k = rng.choice(kinds)
     if k == "none":
         return ["none"]
@@ -336,7 +348,23 @@ def g_atom(rng, core_only=False, hashable_only=False):
         return ["uuid", str(rng.getrandbits(128))]
     if k == "decimal":
         return ["decimal", rng.choice(["1.50", "0", "-0", "1E+3", "123456789012345678901234567890.000000001", "-7.25", "Infinity"])]
+    if k == "datetime":
+        return g_datetime(rng)
     return ["date", rng.randint(1, 3652059)]
+
+
+def g_datetime(rng):
+    """naive local datetimes 1902..2100 (before and after the epoch, microseconds 0 and non-0) on which
+    fromtimestamp(timestamp()) is the identity (i.e. away from DST folds / gaps of the local zone)"""
+    for _ in range(20):
+        r = rng.random()
+        year = rng.randint(1902, 1969) if r < 0.45 else rng.randint(1970, 2100) if r < 0.9 else rng.choice([1969, 1970])
+        us = rng.choice([0, 0, 1, 500000, 999999, rng.randrange(1000000)])
+        f = [year, rng.randint(1, 12), rng.randint(1, 28), rng.randrange(24), rng.randrange(60), rng.randrange(60), us]
+        d = datetime.datetime(*f)
+        if datetime.datetime.fromtimestamp(d.timestamp()) == d:
+            return ["datetime", f]
+    return ["datetime", [2001, 2, 3, 4, 5, 6, 7]]
 
 
 def g_hashable(rng, depth):
@@ -418,6 +446,8 @@ def S(x):
         return ["decimal", str(x)]
     if t is datetime.date:
         return ["date", x.toordinal()]
+    if t is datetime.datetime:
+        return ["datetime", [x.year, x.month, x.day, x.hour, x.minute, x.second, x.microsecond]]
     raise ValueError(x)
 
 
@@ -427,6 +457,9 @@ TARGET_VALUES = [
     datetime.date(2020, 2, 29), datetime.date(1, 1, 1), [2 ** 70], {"k": [1 + 2j, 2 ** 100]}, (datetime.date(1999, 12, 31),),
     NAN, [NAN], (NAN,), {"a": NAN}, {"a": (NAN, [NAN])}, {1.5, "x"}, set(), frozenset(), {(1, 2), (3,)}, frozenset({1, "a"}),
     b"", b"a", b"ab", b"abc", b"\xff\xfe\xfd\xfc", [b"x", (b"yz",)], {b"k": 1}, {"a": {"b": {"c": [None, True, -0.0, float("inf"), float("-inf")]}}},
+    datetime.datetime(1969, 12, 31, 23, 59, 58, 500000), [datetime.datetime(1950, 6, 1, 1, 2, 3, 1), datetime.datetime(2020, 2, 29, 12, 0)],
+    {"t": (datetime.datetime(1902, 1, 1, 0, 0, 0, 999999), datetime.datetime(2100, 12, 31, 23, 59, 59, 999999))},
+    {datetime.datetime(1999, 1, 1)}, {datetime.datetime(1999, 1, 1): 1}, datetime.datetime(1970, 1, 1), datetime.datetime(1969, 12, 31, 23, 59, 59, 1),
     uuid.UUID(int=5), [uuid.UUID(int=5)], decimal.Decimal("1.50"), [decimal.Decimal("1E+3")], {uuid.UUID(int=7): 1},
     {(1, 2): 3}, {1: 2}, {None: 1}, {True: 0}, {1.5: 1}, {frozenset({1}): 1}, {1 + 2j: 1}, {decimal.Decimal("2"): 1}, {(NAN,): 1},
     {"data": "x", "encoding": "base64"}, "", "\x00", "\U0001f600é", [[[[[[1]]]]]], (), [], {}, ((),), [()], {"": ""},
@@ -514,6 +547,50 @@ def run_ser(sname, v, buffers=("bytes",)):
             if kind == "bytes":
                 out[path] = o
     return out
+
+
+class Hooked(object):
+    """harness class whose to-dict converter serialises another value with the same serializer instance"""
+    def __init__(self, tag):
+        self.tag = tag
+
+
+def run_reentrant(sname, inner):
+    """serialisation is a pure function of the value: while serializer s is inside the converter hook of one value
+    (class_to_dict registry -> json/msgpack default(), marshal convert_obj_into_marshallable, serpent class serializer),
+    the hook serialises `inner` with the same serializer object (what happens when a __getstate__ / converter makes a
+    Pyro call, or another thread serialises meanwhile).  Returns (outer outcome, expected outer, inner outcome)."""
+    from Pyro5 import serializers
+    s = serializers.serializers[sname]
+    box = {}
+
+    def converter(obj):
+        if "inner" not in box:
+            try:
+                box["inner"] = ("bytes", s.dumps(inner))
+            except Exception as x:
+                box["inner"] = ("exc", x)
+        return {"hooked": obj.tag, "n": 2 ** 40}
+    outer = Hooked("outer") if sname == "marshal" else ["head", {"k": Hooked("outer")}, "tail" * 5, 12345]
+    want = {"hooked": "outer", "n": 2 ** 40}
+    want = want if sname == "marshal" else ["head", {"k": want}, "tail" * 5, 12345]
+    serializers.SerializerBase.register_class_to_dict(Hooked, converter)
+    try:
+        try:
+            o = obs_ok(s.loads(s.dumps(outer)))
+        except Exception as x:
+            o = (REFUSED, type(x).__name__)
+    finally:
+        serializers.SerializerBase.unregister_class_to_dict(Hooked)
+    kind, data = box.get("inner", ("exc", RuntimeError("hook not called")))
+    if kind == "exc":
+        i = (REFUSED, type(data).__name__)
+    else:
+        try:
+            i = obs_ok(s.loads(data))
+        except Exception as x:
+            i = (REFUSED, type(x).__name__)
+    return o, obs_ok(want), i
 
 
 def again(sname, o):
@@ -776,6 +853,21 @@ def run_case(ctx, case, info, world, res, lits, kept, with_oracle=True):
     sname = case["ser"]
     v = build(case["value"])
     skip_model = outside(sname, v)
+    if case["level"] == "reentrant":
+        outer, want, inner = run_reentrant(sname, v)
+        plain = run_ser(sname, v)["result"]
+        res.count("reentrant:" + sname)
+        if with_oracle and not (same(outer, want) and same(inner, plain)):
+            res.violations.append({"signature": "reentrant-serialization-differs:" + sname, "case": case,
+                                   "what": "%s: while the serializer is inside the converter hook of one value the hook serialises %s with "
+                                           "the same serializer object: the outer value arrives as %s (expected %s), the inner one as %s "
+                                           "(alone it arrives as %s)" % (sname, show(v), show(outer), show(want), show(inner), show(plain))})
+        if not skip_model:
+            try:
+                add_lit(lits, kept, c_case(sname, "result", v, inner, codes), (case, "reentrant-inner", inner))
+            except Unrep as x:
+                res.mismatches.append({"component": "C01:reentrant", "case": case, "impl": str(x)})
+        return inner
     if case["level"] == "ser":
         obs = run_ser(sname, v, BUFFERS)
         res.count("ser:%s:%s" % (sname, obs["result"][0] if obs["result"][0] == "ok" else "refused"))
@@ -855,8 +947,13 @@ def make_cases(ctx, info):
     for spec in gen_values(ctx, ctx.n(420, 5000)):
         for sname in SERS:
             cases.append({"level": "ser", "ser": sname, "value": spec})
+    for v in [{1, "a"}, [uuid.UUID(int=9), 2 ** 70, 1 + 2j], "plain text", {"k": [1.5, None]}, datetime.date(2000, 1, 2), decimal.Decimal("7.5")]:
+        for sname in SERS:
+            cases.append({"level": "reentrant", "ser": sname, "value": S(v)})
+    for spec in gen_values(ctx, ctx.n(10, 100)):
+        cases.append({"level": "reentrant", "ser": rng.choice(SERS), "value": spec})
     e2e = []
-    for v in TARGET_VALUES[:24] + [uuid.UUID(int=5), [uuid.UUID(int=5)], b"abc", {"k": (1, 2)}, "x" * 300, list(range(60))]:
+    for v in TARGET_VALUES[:24] + [datetime.datetime(1969, 12, 31, 23, 59, 58, 500000), [datetime.datetime(1950, 6, 1, 1, 2, 3, 1)], uuid.UUID(int=5), [uuid.UUID(int=5)], b"abc", {"k": (1, 2)}, "x" * 300, list(range(60))]:
         for sname in SERS:
             e2e.append({"level": "e2e", "ser": sname, "value": S(v), "positions": list(POSITIONS), "compress": [False, True],
                         "msg": MSG_ALL if len(e2e) % 3 == 0 else ["", "r", "p", "rpc"]})
@@ -896,14 +993,15 @@ def execute(ctx, cases, model_ok, res, info, with_oracle=True):
 
 
 RULE = ("values: own generator over None/bool/int (boundaries of 8..64 bits, up to 2^200)/float (random bit patterns, inf, nan, -0.0, "
-        "subnormals)/text (ascii, BMP, astral, NUL; no surrogates)/bytes/complex/uuid/Decimal/date, nested in list/tuple/set/frozenset/"
+        "subnormals)/text (ascii, BMP, astral, NUL; no surrogates)/bytes/complex/uuid/Decimal/date/naive datetime (1902..2100, pre- and post-epoch, microseconds 0 and non-0), nested in list/tuple/set/frozenset/"
         "dict (str keys mostly, also int/float/bool/None/tuple/bytes/frozenset/complex/uuid keys) to depth 4 (quick) / 6 (thorough), "
         "40% drawn from the lossless core only; plus ~90 targeted values. Each value x 4 serializers at the serializer level "
         "(positional, keyword, result, each deserialized from bytes / bytearray / memoryview / memoryview slice / memoryview of "
         "bytearray); end to end through the loopback transport for 7 positions x compression off/on x message configuration (request "
         "annotations, response annotations via Daemon.annotations(), correlation id: all 8 combinations for a third of the targeted "
         "values, 4 for the rest, 2 random ones for generated values), incl. payloads of exactly threshold-1..threshold+2 bytes and "
-        "large compressible payloads; observations of one value on one path that agree are one model evaluation. "
+        "large compressible payloads; observations of one value on one path that agree are one model evaluation; a re-entrancy "
+        "probe per serializer (a converter hook serialising a second value with the same serializer object). "
         "distinct = distinct (level, serializer, value) cases")
 
 
